@@ -299,6 +299,35 @@ Theorem C15_owner_drop_recycles_its_own_second_handle_refuted :
 Proof. exact owner_drop_recycles_its_own_second_handle. Qed.
 Print Assumptions C15_owner_drop_recycles_its_own_second_handle_refuted.
 
+(* ---- ... and what IS guaranteed: under the discipline `disciplined ops` (a function of the history alone: an
+   object made by allocation is dropped only when no other live handle descends from it, i.e. the owner keeps
+   it until every receiver is done; received handles may be dropped at any time), for EVERY history of spawning,
+   allocating in any process, handing over, storing and dropping, any two live handles are backed by live blocks
+   of their owners' heaps (which keep C14's invariant), are the same cells when they descend from the same
+   allocation, and otherwise lie in different processes' arenas or in disjoint blocks ... *)
+Theorem C15_disciplined_drops_isolated : forall pg hsize, pg_ok pg -> forall ops s j k hj hk,
+  drun pg hsize (dsys_init hsize) ops = OK s -> disciplined ops = true ->
+  is_live (d_flags s) j = true -> is_live (d_flags s) k = true ->
+  nth_error (hs_handles (d_sys s)) j = Some hj -> nth_error (hs_handles (d_sys s)) k = Some hk ->
+  exists oj obj ok obk prj prk,
+    h_store hj = HShared oj obj /\ h_store hk = HShared ok obk /\
+    nth_error (hs_procs (d_sys s)) oj = Some prj /\ nth_error (hs_procs (d_sys s)) ok = Some prk /\
+    HeapInv (sm_heap (p_sm prj)) /\ obj_ok (sm_heap (p_sm prj)) obj /\ obj_ok (sm_heap (p_sm prk)) obk /\
+    (nth j (droots ops) O = nth k (droots ops) O -> h_store hj = h_store hk) /\
+    (nth j (droots ops) O <> nth k (droots ops) O -> oj <> ok \/ disj (o_block obj) (o_block obk)).
+Proof. exact disciplined_isolated. Qed.
+Print Assumptions C15_disciplined_drops_isolated.
+
+(* ... and a store through a live handle changes no byte read through a live handle of another allocation *)
+Theorem C15_disciplined_store_isolated : forall pg hsize, pg_ok pg -> forall ops s j k hj off bs s',
+  drun pg hsize (dsys_init hsize) ops = OK s -> disciplined ops = true ->
+  is_live (d_flags s) j = true -> nth_error (hs_handles (d_sys s)) j = Some hj ->
+  nth j (droots ops) O <> nth k (droots ops) O ->
+  dstep pg hsize s (DOp (HWrite k off bs)) = OK s' ->
+  hread (d_sys s') hj = hread (d_sys s) hj.
+Proof. exact disciplined_store_isolated. Qed.
+Print Assumptions C15_disciplined_store_isolated.
+
 (* ---- atomic ---- *)
 (* n threads, each k times `with v.get_lock(): v.value += 1`, any schedule: at every moment the
    value is v0 + the number of completed stores, and when all are finished it is v0 + n*k *)
@@ -386,3 +415,18 @@ Example C15_witness_history :
     [(0, 0, 8); none_block; (0, 8, 16); none_block; (0, 0, 8); (0, 0, 8); none_block; none_block; (0, 16, 24);
      none_block; (0, 0, 8)].
 Proof. exact hist_witness_valid. Qed.
+
+(* non-vacuity of the disciplined-drop theorems: hand-overs, drops by the receivers, then the original; its block
+   is recycled by the next allocation, which is handed on and stored through *)
+Example C15_witness_disciplined_drops :
+  disciplined disciplined_witness = true /\
+  match drun 4096 4096 (dsys_init 4096) disciplined_witness with
+  | OK s => live_hreads (d_sys s) (hs_handles (d_sys s)) (d_flags s) O
+            = [(1%nat, [3]); (5%nat, [33; 0; 0; 0]); (6%nat, [33; 0; 0; 0])] /\
+            map h_store (hs_handles (d_sys s)) =
+              [HShared 0 (mk_obj (0, 0, 8) 4); HShared 0 (mk_obj (0, 8, 16) 1); HShared 0 (mk_obj (0, 0, 8) 4);
+               HShared 0 (mk_obj (0, 0, 8) 4); HShared 0 (mk_obj (0, 0, 8) 4); HShared 0 (mk_obj (0, 0, 8) 4);
+               HShared 0 (mk_obj (0, 0, 8) 4)]
+  | Err _ => False
+  end.
+Proof. exact disciplined_witness_ok. Qed.
